@@ -184,6 +184,8 @@ def run_gpx(case):
         TrackWriter.writeToGpx(TrackCollection(trs), path)
         paths = [path]
     fmt1 = (ObsTime.getPrintFormat(), ObsTime.getReadFormat())
+    text = None if case.get('many') else open(paths[0]).read()
+    stamps = [[o.timestamp.day, o.timestamp.month, o.timestamp.year, o.timestamp.hour, o.timestamp.min, o.timestamp.sec] for o in trs[0]]
     # a CSV round trip in the same process, after the GPX export (the writers share the class-level time formats)
     cpath = os.path.join(scratch(), 'after.csv')
     TrackWriter.writeToFile(trs[0], cpath, 0, 1, 2, 3, ';', 0)
@@ -191,15 +193,31 @@ def run_gpx(case):
     os.remove(cpath)
     save = ObsTime.getReadFormat()
     ObsTime.setReadFormat("4Y-2M-2DT2h:2m:2sZ")
-    back = []
+    back = []; backf = []
     try:
         for pth in paths:
             b = TrackReader.readFromGpx(pth, srid='GEO')
             back += [[[o.position.getX(), o.position.getY(), o.position.getZ(), o.timestamp.toAbsTime()] for o in b.getTrack(i)] for i in range(b.size())]
+            backf += [[[o.timestamp.day, o.timestamp.month, o.timestamp.year, o.timestamp.hour, o.timestamp.min, o.timestamp.sec] for o in b.getTrack(i)] for i in range(b.size())]
             os.remove(pth)
     finally:
         ObsTime.setReadFormat(save)
-    return {'back': back, 'fmt0': list(fmt0), 'fmt1': list(fmt1), 'csv_after': [o.timestamp.toAbsTime() for o in cback]}
+    return {'back': back, 'fmt0': list(fmt0), 'fmt1': list(fmt1), 'csv_after': [o.timestamp.toAbsTime() for o in cback], 'text': text, 'stamps': stamps, 'backf': backf}
+
+
+def coq_gpx(case, obs):
+    if 'exc' in obs or obs.get('text') is None:
+        return None                               # one file per track: oracle only
+    lines = obs['text'].split('\n')
+    if '    <trk>' not in lines:
+        return None
+    hdr = lines[:lines.index('    <trk>')]
+    st = lambda f: '(mk %d%%nat %d%%nat %d%%nat %d%%nat %d%%nat %d%%nat)' % tuple(f)
+    S = lambda t: '"%s"' % t.replace('"', '""')
+    pts = coq_list('(%s, %s, %s, %s)' % (q(y), q(x), q(z), st(f)) for (x, y, z), f in zip(case['pts'], obs['stamps']))
+    ts = coq_list('("k%d", %s)' % (i, pts) for i in range(case['ntracks']))
+    back = coq_list(coq_list('(%s, %s, %s, %s)' % (q(b[1]), q(b[0]), q(b[2]), st(f)) for b, f in zip(tb, tf)) for tb, tf in zip(obs['back'], obs['backf']))
+    return '(%s, %s, %s, %s)' % (coq_list(S(l) for l in hdr), ts, S(obs['text']), back)
 
 
 def oracle_gpx(case, obs):
@@ -222,9 +240,22 @@ def oracle_gpx(case, obs):
 
 S_GPX = Stream(
     name='gpx', budget={'quick': 150, 'thorough': 4000},
-    rule='geographic tracks (1..5 observations, 1..2 tracks) written by writeToGpx into one file or one file per track (30 %) and read by readFromGpx with the matching read format, followed by a CSV round trip in the same process; oracle only (1e-8 degree, 1 mm, same second; class-level time formats restored)',
-    imports='From Coq Require Import List.', case_type='unit', check_def='Definition ok (c : unit) : bool := true.',
-    generate=gen_gpx, run_impl=run_gpx, coq_case=lambda c, o: None, oracle=oracle_gpx,
+    rule='geographic tracks (1..5 observations, 1..2 tracks) written by writeToGpx into one file or one file per track (30 %) and read by readFromGpx with the matching read format, followed by a CSV round trip in the same process; for the one-file form the file text is compared byte for byte with the model\'s writer (header lines taken from the file, '
+         'coordinates printed by the model\'s "{:3.8f}", times by its GPX time format) and the points read back (values and time fields) with the model of the line-based reader on that text; '
+         'oracle: 1e-8 degree, 1 mm, same second; class-level time formats restored',
+    imports='From Coq Require Import List Ascii String Bool QArith Qabs.\nImport ListNotations.\nFrom TL Require Import Model.TextFmt Model.CsvText Model.GpxText Proofs.FixedText Proofs.TimeText Proofs.GpxText.\nOpen Scope Q_scope.\nOpen Scope string_scope.',
+    case_type='list string * list (string * list (Q * Q * Q * stamp)) * string * list (list (Q * Q * Q * stamp))',
+    check_def='''Definition hdr_okb (l : string) : bool := negb (has "<trk>" l) && negb (has "</trk>" l) && str_all (fun c => negb (Ascii.eqb c nl)) l.
+Definition mkt (t : string * list (Q * Q * Q * stamp)) : trk := {| tname := fst t; tpts := map (fun '(la, lo, el, s) => gpx_point la lo el s) (snd t) |}.
+Definition near (tok : string) (v : Q) : bool := match parse_fixed tok with Some w => Qle_bool (Qabs (w - v)) (1 # 1000000000000) | None => false end.
+Definition stamp_eqb (a b : stamp) : bool := Nat.eqb (day a) (day b) && Nat.eqb (month a) (month b) && Nat.eqb (year a) (year b) && Nat.eqb (hour a) (hour b) && Nat.eqb (minute a) (minute b) && Nat.eqb (TimeText.sec a) (TimeText.sec b).
+Definition pt_match (p : pt) (o : Q * Q * Q * stamp) : bool := let '(la, lo, el, s) := o in near (lat p) la && near (lon p) lo && near (ele p) el && stamp_eqb (read_gpx_time (list_ascii_of_string (tim p))) s.
+Fixpoint all2 {A B} (f : A -> B -> bool) (a : list A) (b : list B) : bool := match a, b with [], [] => true | x :: r, y :: s => f x y && all2 f r s | _, _ => false end.
+Definition ok (c : list string * list (string * list (Q * Q * Q * stamp)) * string * list (list (Q * Q * Q * stamp))) : bool :=
+  let '(hdr, ts, text, back) := c in
+  forallb hdr_okb hdr && String.eqb (write_gpx hdr (map mkt ts)) text &&
+  match read_gpx text with Some r => all2 (all2 pt_match) r back | None => false end.''',
+    generate=gen_gpx, run_impl=run_gpx, coq_case=coq_gpx, oracle=oracle_gpx,
     nontrivial=lambda c, o: len(c['pts']) >= 2, klass=lambda c, o: 'tracks=%d' % c['ntracks'])
 
 
